@@ -24,18 +24,18 @@ type Violation struct {
 
 // Hooks are the property-specific oracles plugged into the generic executor.
 type Hooks struct {
-	AfterOpen   func(r *Run)
-	AfterStep   func(r *Run, op *Op)
-	OnPublish   func(r *Run, before int64, in []klevdb.Message, ret int64, err error)
-	OnDelete    func(r *Run, kind string, req []int64, before *Model, got []Msg, gotOffs []int64, size int64, err error)
-	BeforeClose func(r *Run)
-	AfterClose  func(r *Run)
-	OnReopened  func(r *Run, op *Op)
-	OnOp        func(r *Run, op *Op) bool // property-specific op kinds; true = handled
+	AfterOpen    func(r *Run)
+	AfterStep    func(r *Run, op *Op)
+	OnPublish    func(r *Run, before int64, in []klevdb.Message, ret int64, err error)
+	OnDelete     func(r *Run, kind string, req []int64, before *Model, got []Msg, gotOffs []int64, size int64, err error)
+	BeforeClose  func(r *Run)
+	AfterClose   func(r *Run)
+	OnReopened   func(r *Run, op *Op)
+	OnOp         func(r *Run, op *Op) bool // property-specific op kinds; true = handled
 	BeforeHelper func(r *Run, op *Op, hc *HelperCall)
-	AfterTool   func(r *Run, tool string)
-	OpDone      func(r *Run, i int, op *Op) // always called after an operation (engine K bookkeeping)
-	Strict      []string                  // call-name prefixes whose unexpected errors are violations of this property
+	AfterTool    func(r *Run, tool string)
+	OpDone       func(r *Run, i int, op *Op) // always called after an operation (engine K bookkeeping)
+	Strict       []string                    // call-name prefixes whose unexpected errors are violations of this property
 }
 
 type Run struct {
